@@ -395,7 +395,7 @@ func init() {
 					}
 				}
 			}
-			for i := 0; i < l.N(30, 400); i++ {
+			for i := 0; i < l.N(30, 2000); i++ {
 				l.Add("random", c11Params{Random: true}, 0)
 			}
 			return l.Cases
